@@ -5,6 +5,7 @@ import (
 	"encoding/json"
 	"fmt"
 	"os/exec"
+	"strings"
 	"sync"
 	"time"
 
@@ -140,6 +141,10 @@ func partStoreStress(c *check.Ctx, a *acc) {
 		return
 	}
 	for _, v := range r.Violations {
+		if strings.Contains(v, "type name") || strings.Contains(v, "type id") || strings.Contains(v, "GetType") {
+			c.Report(&check.Finding{Props: []string{"C12", "C10"}, Clause: "type/registration-not-one-to-one", Trigger: "concurrent registration", Engine: "E6 component store", Detail: v})
+			continue
+		}
 		c.Report(&check.Finding{Props: []string{"C12"}, Clause: "store/not-a-map", Trigger: "component store", Engine: "E6 component store", Detail: v})
 	}
 	for i := 0; i < r.Unknown; i++ {
